@@ -74,7 +74,8 @@ func (f *FragmentBuffer) AdvanceTo(messageSequence uint16) {
 // when it returns true it means the fragmentBuffer has inserted and the buffer shouldn't be handled
 // when an error returns it is fatal, and the DTLS connection should be stopped.
 func (f *FragmentBuffer) Push(buf []byte) (isHandshake, isRetransmit bool, err error) {
-	if f.size()+len(buf) >= fragmentBufferMaxSize || f.totalFragmentCount >= fragmentBufferMaxCount {
+	// A record that alone exceeds the buffer can never be stored.
+	if len(buf) >= fragmentBufferMaxSize {
 		return false, false, dtlserrors.ErrFragmentBufferOverflow
 	}
 
@@ -86,6 +87,12 @@ func (f *FragmentBuffer) Push(buf []byte) (isHandshake, isRetransmit bool, err e
 	// fragment isn't a handshake, we don't need to handle it
 	if recordLayerHeader.ContentType != protocol.ContentTypeHandshake {
 		return false, false, nil
+	}
+
+	// Only handshake records enter the buffer, so only they are refused when
+	// it is full: application data, alerts and ACKs must keep flowing.
+	if f.size()+len(buf) >= fragmentBufferMaxSize || f.totalFragmentCount >= fragmentBufferMaxCount {
+		return false, false, dtlserrors.ErrFragmentBufferOverflow
 	}
 
 	headerSize := recordLayerHeader.Size()
